@@ -693,7 +693,7 @@ func (x *Exec) frameObligations(st *State, mods []modObj, pos token.Pos) {
 			continue
 		}
 		r := Atom("r!q", SInt)
-		cond := []*Term{Le(IntLit(0), r), Le(r, st.entry.alloc)}
+		cond := []*Term{Lt(IntLit(0), r), Le(r, st.entry.alloc)}
 		for _, m := range mods {
 			if m.key == key {
 				cond = append(cond, m.excludes(r))
